@@ -871,4 +871,77 @@ theorem applySeq_fix : ∀ (apps : List (String × Table)) (t r : LTy) (ns : Str
       · cases he; exact absurd rfl hn
       · exact applySeq_fix rest m r ns tbl e hm' hrest
 
+/-! ### re-binding -/
+
+/-- applying a namespace again with ANOTHER table overwrites: the result is what applying the second
+    table to the original tree gives (no occurrence keeps its old link, wherever it sits) -/
+theorem applyNs_overwrite (w : String) (ns : String) : ∀ (t : LTy) (tb1 tb2 : Table) (p : Path) (t1 t2 : LTy),
+    applyNs w tb1 ns p t = .ok t1 → applyNs w tb2 ns p t1 = .ok t2 → applyNs w tb2 ns p t = .ok t2 := by
+  intro t
+  induction t with
+  | leaf ty =>
+    intro tb1 tb2 p t1 t2 h1 h2
+    simp only [applyNs] at h1; cases h1; exact h2
+  | nil =>
+    intro tb1 tb2 p t1 t2 h1 h2
+    simp only [applyNs] at h1; cases h1; exact h2
+  | ref id n link =>
+    intro tb1 tb2 p t1 t2 h1 h2
+    simp only [applyNs] at h1
+    split at h1
+    · cases h1; exact h2
+    · rename_i hn
+      split at h1
+      · cases h1
+        simp only [applyNs, hn] at h2 ⊢
+        exact h2
+      · cases h1
+  | list i ih =>
+    intro tb1 tb2 p t1 t2 h1 h2
+    simp only [applyNs] at h1
+    obtain ⟨x, hx, e⟩ := bind_eq_ok h1; cases e
+    simp only [applyNs] at h2
+    obtain ⟨y, hy, e⟩ := bind_eq_ok h2; cases e
+    simp only [applyNs, ih tb1 tb2 _ x y hx hy]; rfl
+  | map k v ihk ihv =>
+    intro tb1 tb2 p t1 t2 h1 h2
+    simp only [applyNs] at h1
+    obtain ⟨x, hx, e⟩ := bind_eq_ok h1
+    obtain ⟨x2, hx2, e'⟩ := bind_eq_ok e; cases e'
+    simp only [applyNs] at h2
+    obtain ⟨y, hy, e⟩ := bind_eq_ok h2
+    obtain ⟨y2, hy2, e'⟩ := bind_eq_ok e; cases e'
+    simp only [applyNs, ihk tb1 tb2 _ x y hx hy, ihv tb1 tb2 _ x2 y2 hx2 hy2]; rfl
+  | obj id ps ih =>
+    intro tb1 tb2 p t1 t2 h1 h2
+    simp only [applyNs] at h1
+    obtain ⟨x, hx, e⟩ := bind_eq_ok h1; cases e
+    simp only [applyNs] at h2
+    obtain ⟨y, hy, e⟩ := bind_eq_ok h2; cases e
+    simp only [applyNs, ih tb1 tb2 _ x y hx hy]; rfl
+  | oneOf d ms ih =>
+    intro tb1 tb2 p t1 t2 h1 h2
+    simp only [applyNs] at h1
+    obtain ⟨x, hx, e⟩ := bind_eq_ok h1; cases e
+    simp only [applyNs] at h2
+    obtain ⟨y, hy, e⟩ := bind_eq_ok h2; cases e
+    simp only [applyNs, ih tb1 tb2 _ x y hx hy]; rfl
+  | scope objs root ih =>
+    intro tb1 tb2 p t1 t2 h1 h2
+    simp only [applyNs] at h1
+    obtain ⟨x, hx, e⟩ := bind_eq_ok h1; cases e
+    simp only [applyNs] at h2
+    obtain ⟨y, hy, e⟩ := bind_eq_ok h2; cases e
+    rw [selfTable_congr (labels_applyNs objs hx)] at hy
+    simp only [applyNs, ih _ _ p x y hx hy]; rfl
+  | cons l h t ihh iht =>
+    intro tb1 tb2 p t1 t2 h1 h2
+    simp only [applyNs] at h1
+    obtain ⟨x, hx, e⟩ := bind_eq_ok h1
+    obtain ⟨x2, hx2, e'⟩ := bind_eq_ok e; cases e'
+    simp only [applyNs] at h2
+    obtain ⟨y, hy, e⟩ := bind_eq_ok h2
+    obtain ⟨y2, hy2, e'⟩ := bind_eq_ok e; cases e'
+    simp only [applyNs, ihh tb1 tb2 _ x y hx hy, iht tb1 tb2 _ x2 y2 hx2 hy2]; rfl
+
 end Arca.Link
